@@ -143,15 +143,17 @@ def _round(d):
 
 
 def gen_cases(rng, tier):
-    per = 6 if tier == 'quick' else 40
+    per = 12 if tier == 'quick' else 60
     cases = []
     for name, e in OC.ENTRIES.items():
         if e.kind != 'graph':
             continue
         for full in e.fulls():
             heavy = any(x in name for x in ('pair_based', 'effective_degree', 'heterogeneous_pairwise'))
-            for i in range(max(3, per // 2) if heavy else per):
-                c = OC.gen_case(rng, name, full, e.sir, isolated=e.isolated and rng.random() < 0.3, modes=e.modes, nmax=e.nmax, discrete=bool(e.discrete))
+            for i in range(max(3, (2 * per) // 3) if heavy else per):
+                # two thirds of the cases with explicit initial sets where the entry point takes them: that is where labels and insertion order enter
+                modes_i = tuple(m for m in e.modes if m == 'sets') if (i % 3 and 'sets' in e.modes) else e.modes
+                c = OC.gen_case(rng, name, full, e.sir, isolated=e.isolated and rng.random() < 0.3, modes=modes_i, nmax=e.nmax, discrete=bool(e.discrete))
                 if c['gamma'] == '0' and c['tau'] != '0':
                     c['gamma'] = '1'        # exhaustion of S makes the closures 0/0 up to rounding (see c06.curve_domain)
                 if c['tau'] == '0' and c['gamma'] == '0' and e.scalar:
